@@ -2,12 +2,13 @@ INIT Init
 NEXT Next
 CONSTANTS
   NSpecies = 4
-  Coefs = {1, 2, 10}
+  Coefs <- CoefsT
   MaxReac = 3
   MaxProd = 2
   Kinds = {"Reaction", "Equilibrium"}
 INVARIANT NamesInOrder
 INVARIANT NoUnitCoef
+INVARIANT AllNonUnitShown
 INVARIANT OneArrow
 INVARIANT Emit
 CHECK_DEADLOCK FALSE
